@@ -1,8 +1,8 @@
-from . import streams_codec
+from . import streams_codec, cli
 
 ID = 'C09'
 PROPS_MODULE = 'Refine.Props.C09'
-STREAMS = [streams_codec.SOLB_WRITE, streams_codec.SOLB_READ]
+STREAMS = [streams_codec.SOLB_WRITE, streams_codec.SOLB_READ, cli.FIELDRT, cli.FIELDRT_MPI]
 EXPLANATION = (
     'Proved in Lean (Refine/Props/C09.lean): decodeSolb n (encodeSolb v s) = ok (ldim, rows) for every ldim '
     '(versions 2,3,4; 2-D and 3-D; also with the C20 count check), decodeMetricSolb (encodeMetricSolb v twod ms) = '
@@ -12,9 +12,14 @@ EXPLANATION = (
     'ldim 0..20, permuted global ids), arrays returned by ref_part_scalar / ref_part_metric == decodeSolb / '
     'decodeMetricSolb on files from an independent libMeshb writer incl. vector types and the legacy '
     'twice-the-vertices case (solb_read).  Oracle: checks/meshio_ref.py parses what the C wrote and predicts what '
-    'the C must read; values are position-tagged bit patterns.')
+    'the C must read; values are position-tagged bit patterns.  END-TO-END (cli_metric_roundtrip[_mpi]; no model '
+    'side): `ref adapt -s 0 --export-metric-as` at np = 0,2,3,5 (chunk limits 64..1000, every rank active) on 2-D and '
+    '3-D meshes with a metric file from the independent writer whose six components are all distinct and position '
+    'dependent: entry j of the output field must be bit-identical to the input tensor of the vertex that became '
+    'output vertex j (multi-rank read ref_part_metric -> ghost/bcast -> ref_gather_metric).')
 ASSUMPTIONS = [
-    'one rank (ref_mpi_create stub): chunk loops run once; the multi-rank sum/broadcast path is not modelled here',
+    'the Lean model covers one rank (ref_mpi_create stub): chunk loops run once; the multi-rank sum/broadcast path '
+    'is covered by the end-to-end cli_metric_roundtrip_mpi stream only (oracle, no model side)',
     'ref_node_metric_set also stores log(m); its status on non-SPD input belongs to the matrix kernel (C16): the '
     'metric streams use SPD tensors and the model takes ref_node_metric_set to succeed',
     'entry g of a field file belongs to the vertex with global id g: the harness builds grids with a permutation '
